@@ -5,7 +5,7 @@ import atexit, json, os, re, shutil, subprocess, sys, tempfile, time, glob, hash
 
 os.environ.setdefault("JAVA_TOOL_OPTIONS", "-Xss64m")
 os.environ.setdefault("SAMPLEK", "1")   # the file-format operators recurse over byte sequences
-VERIF = "/verif"
+VERIF = os.path.dirname(os.path.dirname(os.path.abspath(__file__)))      # relocatable: a snapshot of /verif (vp run) uses its own files
 REPO = "/repo"
 SPEC = os.path.join(VERIF, "spec")
 NCPU = os.cpu_count() or 8
@@ -36,7 +36,7 @@ class Infra(Exception):
 def build(variant="plain", harness="ezdrive", shared=False, extra="", libs="", repo=REPO):
     """Compiles /repo's *current* sources plus a harness into a fresh scratch dir; returns the binary path."""
     out = scratch("ezb-" + variant)
-    cmd = ["make", "-s", "-f", os.path.join(VERIF, "harness", "Makefile"), "OUT=" + out, "VARIANT=" + variant,
+    cmd = ["make", "-s", "-f", os.path.join(VERIF, "harness", "Makefile"), "VERIF=" + VERIF, "OUT=" + out, "VARIANT=" + variant,
            "HARNESS=" + harness, "REPO=" + repo, "-j%d" % NCPU]
     if shared: cmd.append("SHARED=1")
     if extra: cmd.append("EXTRA=" + extra)
